@@ -11,8 +11,10 @@ Parts (all on real protocol objects of BOTH frameworks, left in CONNECTING by th
 
 Oracle.  Every case is judged three ways: Spec (ValidRequest / ValidResponse, decided by the Lean driver) vs implementation
 (OPEN iff valid; no exception leaves dataReceived/data_received), and Model vs implementation on all observables
-(octets written while CONNECTING, state, drop kind, onConnect/onOpen).  Where the model has an `escapes` outcome (a defect
-it mirrors) an implementation that instead fails the handshake cleanly is accepted (noted, no break).
+(octets written while CONNECTING, state, drop kind, onConnect/onOpen).  F4 / F5 (exceptions leaving dataReceived) are
+repaired in /repo (96829a53, cb4d1ff0) and the model mirrors the repaired behaviour; any exception is a violation again.
+Seeded change /verif/seeded/c07 (client checks the server's subprotocol by substring of the comma-joined request value):
+exit 1, client-opens-invalid:protocol, replay `Sec-WebSocket-Protocol: wamp.2` for ['wamp.2.json','wamp.2.msgpack'].
 
 Mutation self-test (scratch copy of /repo/src, `VERIF_REPO=/tmp/... ./check C07 --tier quick`), one edit each:
 
@@ -70,10 +72,10 @@ MANIFEST_ENTRY = {
             "running generated requests/responses (one deviation each, arbitrary and non-UTF-8 octets, oversized, all chunkings) on real "
             "protocol objects of both frameworks, by the client x server option matrix wired back-to-back, and by exhaustive small-string "
             "correspondence of the string primitives.",
-    "note": "Partial where the code deviates: Python int() syntax for Sec-WebSocket-Version / status code, exceptions escaping "
-            "dataReceived (F4, F5), subprotocol compared with factory.protocols, path parameters dropped from the resource, unbracketed "
-            "IPv6 Host -- each a known finding with its own key and a negation witness in Lean. ipaddress/hyperlink/parse_qs internals "
-            "are inputs of the model.",
+    "note": "never_escapes is proved in full for server and client (after the fixes 96829a53 / cb4d1ff0 of F4 / F5, mirrored in the "
+            "model). Partial where the code still deviates: Python int() syntax for Sec-WebSocket-Version / status code, subprotocol "
+            "compared with factory.protocols, path parameters dropped from the resource, unbracketed IPv6 Host -- each a known finding "
+            "with its own key and a negation witness in Lean. ipaddress/hyperlink/parse_qs internals are inputs of the model.",
 }
 
 
